@@ -202,6 +202,20 @@ Definition rand_string_alloc (n : Z) : rres Z :=
   else if max_alloc <? 4 * n then VPanic     (* makeslice: len out of range *)
   else VOk n.
 
+(* ---------- templater.randInt(f, t): int64 arithmetic, rand.Int63n(t - f) ---------- *)
+Definition wrap64 (z : Z) : Z := (z + 9223372036854775808) mod 18446744073709551616 - 9223372036854775808.
+
+(* VOk (lo, width): the result is lo + r for some 0 <= r < width; equal bounds give that number,
+   a width that does not fit int64 is an error *)
+Definition rand_int_range (f t : Z) : rres (Z * Z) :=
+  let '(f, t) := if t <? f then (t, f) else (f, t) in
+  let t := if (f =? 0) && (t =? 0) then 10 else t in
+  if t =? f then VOk (f, 1)
+  else
+    let w := wrap64 (t - f) in
+    if w <=? 0 then VErr
+    else VOk (f, w).             (* rand.Int63n(w) + f *)
+
 (* ---------- ioutil2.MultiPassReader ---------- *)
 (* one Read(p) with len(p) = m > 0 on a source of [len] bytes at offset [pos];
    result: bytes read, error?, new position, new passes count *)
